@@ -10,7 +10,7 @@ from ..strat import uni, logu, pos
 
 META = dict(
     technique='Hypothesis-generated materials (G>0, nu in (-1,1/2)) passed through each of the 15 parameter pairs, raw pairs for the rejection branches; '
-              'generated cavity/density/pressure/radii/times; elasticity identities, finite-difference wave equation and algebraic Hooke relations as oracles',
+              'generated cavity/density/pressure/radii/times; elasticity identities, finite-difference wave equation and algebraic Hooke relations as oracles; coverage-guided supplement: the same strategy and oracle driven by atheris/libFuzzer through Hypothesis fuzz_one_input (obligations *-atheris)',
     rule='cases = (material, pair index 0..14 | raw pair of values incl. non-positive / inconsistent ones) and (material, ref_density, cavity_radius, '
          'pressure_scale < 0.1 K, radii in [a, a + 1.5 c_L t], t in [0, 300 a/c_L]); oracle (i) the six returned moduli reproduce the two given and satisfy '
          'K = lambda + 2G/3, M = lambda + 2G, E = G(3 lambda + 2G)/(lambda+G), nu = lambda/(2(lambda+G)), G>0, K>0 - or ValueError (any other exception type is a violation); '
